@@ -114,8 +114,8 @@ def corrupt(e):
 
 def main(ctx):
     quick = ctx.tier == "quick"
-    nlens = 60 if quick else 1200
-    nrays = 4 if quick else 8
+    nlens = 60 if quick else 500
+    nrays = 4 if quick else 6
     tasks = []
     for i in range(nlens):
         opts = dict(kinds=ALL_KINDS, mirrors=(i % 3 == 0), tilts=(i % 2 == 0), catalogue=(i % 4 == 1))
